@@ -13,11 +13,14 @@ import gen as G
 
 LEVEL = "proof"
 DRIVERS = []
-TRUSTED = ["translator tools/gen_sites.py -> coq/Gen/Sites.v (unit call-site table, config-flag table), regenerated from /repo on every run; checks in coq/Proofs/SitesChecks.v",
+TRUSTED = ["translator tools/gen_sites.py -> coq/Gen/Sites.v (unit call-site table, config-flag table), regenerated from /repo on every run; checks in coq/Proofs/SitesChecks.v; the table is "
+           "SYNTACTIC (a time parameter occurs in some format_timestamps(..., unit) call or is passed on with the unit): it does not see a second conversion of the same value nor a raw use "
+           "next to the converted one - those are decided by the equivariance sweep, which must cover every row of the table (enforced by this file)",
            "bit-level PrimFloat model coq/Model/FloatTime.v of format_timestamps/return_timestamps, compared bit-exactly with the implementation on every run",
            "Coq's primitive-float specification (FloatAxioms) and Flocq for the lattice theorem (Proofs/FloatTimeProofs.v) when present"]
 ASSUMPTIONS = ["instants on the microsecond lattice within +/-1e5 s, given in each unit as the nearest double",
-               "output conversions are compared with stored seconds x factor to within 1 ns (the resolution of stored times; sums of durations carry float error of ~1e-11 s): a wrong factor is off by 1e3",
+               "output conversions of a stored lattice instant k us are compared with the exact k/1e3 ms, k us to within 0.3 ns, the bound PROVED for the float model (C09_output_is_stored_times_factor); "
+               "in seconds, and for the integer index of as_units('us'), exactly; tot_length (a float sum of up to 3 durations, each carrying <= 1.5e-11 s) to within 0.5 ns",
                "the call-site table is syntactic (which arguments meet the unit variable); behaviour is decided by the equivariance sweep of every entry point"]
 
 UNITS = [("s", 1e6), ("ms", 1e3), ("us", 1.0)]
@@ -34,7 +37,8 @@ def canon(o):
     if isinstance(o, nap.IntervalSet):
         return ("IntervalSet", np.asarray(o.values).tobytes())
     if isinstance(o, nap.TsGroup):
-        return ("TsGroup", tuple((int(k), canon(o[k])) for k in o.keys()), canon(o.time_support))
+        return ("TsGroup", tuple((int(k), canon(o[k])) for k in o.keys()), canon(o.time_support), np.asarray(o.rates.values, dtype=float).tobytes(),
+                tuple(map(str, o.metadata_columns)), repr(o.metadata.values.tolist()))
     if isinstance(o, (nap.Ts, nap.Tsd, nap.TsdFrame, nap.TsdTensor)):
         v = np.asarray(o.values).tobytes() if hasattr(o, "values") else b""
         cols = tuple(map(str, o.columns)) if hasattr(o, "columns") else ()
@@ -67,6 +71,12 @@ def entry_points(nap):
     E["IntervalSet"] = lambda cv, u, d: nap.IntervalSet(cv(d["s"]), cv(d["e"]), time_units=u)
     E["IntervalSet_pairs"] = lambda cv, u, d: nap.IntervalSet(np.stack([cv(d["s"]), cv(d["e"])], 1), time_units=u)
     E["TsGroup"] = lambda cv, u, d: nap.TsGroup({0: cv(d["t"]), 3: cv(d["t"][::2])}, time_units=u, time_support=d["wide"])
+    # python lists / tuples instead of ndarrays: the only inputs for which suppress_conversion_warnings guards a reachable warning
+    E["Ts_list"] = lambda cv, u, d: nap.Ts(cv(d["t"]).tolist(), time_units=u)
+    E["Tsd_list"] = lambda cv, u, d: nap.Tsd(cv(d["t"]).tolist(), d["v"].tolist(), time_units=u)
+    E["IntervalSet_list"] = lambda cv, u, d: nap.IntervalSet(cv(d["s"]).tolist(), tuple(cv(d["e"]).tolist()), time_units=u)
+    E["TsGroup_list"] = lambda cv, u, d: nap.TsGroup({0: cv(d["t"]).tolist(), 3: cv(d["t"][::2])}, time_units=u, time_support=d["wide"])
+    E["TsGroup_nosupport"] = lambda cv, u, d: nap.TsGroup({0: cv(d["t"]), 3: cv(d["t"][::2])}, time_units=u)
     E["count"] = lambda cv, u, d: d["ts"].count(float(cv([d["b"]])[0]), d["ep"], time_units=u)
     E["bin_average"] = lambda cv, u, d: d["tsd"].bin_average(float(cv([d["b"]])[0]), d["ep"], time_units=u)
     E["get"] = lambda cv, u, d: d["tsd"].get(float(cv([d["a0"]])[0]), float(cv([d["a1"]])[0]), time_units=u)
@@ -91,7 +101,25 @@ def entry_points(nap):
     E["perievent_cont"] = lambda cv, u, d: nap.compute_perievent_continuous(d["reg"], d["ref"], minmax=(float(cv([-d["pw"]])[0]), float(cv([d["pw"]])[0])), time_unit=u)
     E["eta"] = lambda cv, u, d: nap.compute_event_trigger_average(d["grp"], d["reg"], float(cv([d["pb"]])[0]), (float(cv([d["pw"]])[0]), float(cv([d["pw"]])[0])), time_unit=u)
     E["decode_1d"] = lambda cv, u, d: nap.decode_1d(d["tc"], d["grp"], d["ep"], float(cv([d["db"]])[0]), time_units=u)
-    E["mean_psd"] = lambda cv, u, d: nap.compute_mean_power_spectral_density(d["reg"], float(cv([d["seg"]])[0]), time_unit=u)
+    E["eta_scalar_window"] = lambda cv, u, d: nap.compute_event_trigger_average(d["grp"], d["reg"], float(cv([d["pb"]])[0]), float(cv([d["pw"]])[0]), time_unit=u)
+    E["eta_ep"] = lambda cv, u, d: nap.compute_event_trigger_average(d["grp"], d["reg"], float(cv([d["pb"]])[0]), (float(cv([d["pw"]])[0]), float(cv([2 * d["pw"]])[0])), d["ep"], time_unit=u)
+    E["decode_1d_frame"] = lambda cv, u, d: nap.decode_1d(d["tc"], d["cnt"], d["ep"], float(cv([d["db"]])[0]), time_units=u)
+    E["decode_1d_dict"] = lambda cv, u, d: nap.decode_1d(d["tc"], {1: d["grp"][1], 4: d["grp"][4]}, d["ep"], float(cv([d["db"]])[0]), time_units=u)
+    E["decode_1d_feature"] = lambda cv, u, d: nap.decode_1d(d["tc"], d["grp"], d["ep"], float(cv([d["db"]])[0]), time_units=u, feature=d["tsd"])
+    E["decode_2d"] = lambda cv, u, d: nap.decode_2d(d["tc2"], d["grp"], d["ep"], float(cv([d["db"]])[0]), d["xy"], time_units=u)
+    E["decode_2d_frame"] = lambda cv, u, d: nap.decode_2d(d["tc2"], d["cnt"], d["ep"], float(cv([d["db"]])[0]), d["xy"], time_units=u)
+    E["decode_2d_dict"] = lambda cv, u, d: nap.decode_2d(d["tc2"], {1: d["grp"][1], 4: d["grp"][4]}, d["ep"], float(cv([d["db"]])[0]), d["xy"], time_units=u)
+    # the signal carries its OWN support: with d["wide"] some segment holds no sample and the function raises in every unit
+    E["mean_psd"] = lambda cv, u, d: nap.compute_mean_power_spectral_density(d["reg_own"], float(cv([d["seg"]])[0]), time_unit=u)
+    E["mean_psd_ep"] = lambda cv, u, d: nap.compute_mean_power_spectral_density(d["reg"], float(cv([d["seg"]])[0]), ep=d["reg_ep"], time_unit=u)
+    E["Ts.count"] = lambda cv, u, d: d["ts"].count(float(cv([d["b"]])[0]), time_units=u)
+    E["TsdFrame.bin_average"] = lambda cv, u, d: d["frame"].bin_average(float(cv([d["b"]])[0]), d["ep"], time_units=u)
+    E["TsdFrame.get"] = lambda cv, u, d: d["frame"].get(float(cv([d["a0"]])[0]), float(cv([d["a1"]])[0]), time_units=u)
+    E["TsdFrame.smooth"] = lambda cv, u, d: d["regf"].smooth(float(cv([d["std"]])[0]), time_units=u)
+    E["Ts.get"] = lambda cv, u, d: d["ts"].get(float(cv([d["a0"]])[0]), float(cv([d["a1"]])[0]), time_units=u)
+    E["Ts.get_slice"] = lambda cv, u, d: d["ts"].get_slice(float(cv([d["a0"]])[0]), float(cv([d["a1"]])[0]), time_unit=u)
+    E["get_slice_open"] = lambda cv, u, d: d["tsd"].get_slice(float(cv([d["a0"]])[0]), time_unit=u)
+    E["build_tensor_tsd"] = lambda cv, u, d: nap.build_tensor(d["ts"], d["ep"], bin_size=float(cv([d["b"]])[0]), time_unit=u)
     return E
 
 
@@ -104,7 +132,22 @@ def out_points(nap):
     O["tot_length"] = lambda d, u: np.array([d["ep"].tot_length(u)])
     O["ep.as_units"] = lambda d, u: d["ep"].as_units(u).values
     O["in_units"] = lambda d, u: d["tsd"].index.in_units(u)
+    O["Ts.as_units"] = lambda d, u: d["ts"].as_units(u).index.values
+    O["TsdFrame.as_units"] = lambda d, u: d["frame"].as_units(u).index.values
+    O["Ts.times"] = lambda d, u: d["ts"].times(u)
+    O["TsdFrame.times"] = lambda d, u: d["frame"].times(u)
+    O["ep.start_time"] = lambda d, u: np.array([d["ep_ts"].start_time(u)])
+    O["ep.end_time"] = lambda d, u: np.array([d["ep_ts"].end_time(u)])
     return O
+
+
+def out_exact_us(d):
+    """the exact instants (integer microseconds) behind every output point; tot_length: the exact total duration"""
+    t = list(d["t"])
+    flat = [x for se in zip(d["s"], d["e"]) for x in se]
+    inside = [k for k in t if any(s_ <= k <= e_ for s_, e_ in zip(d["s"], d["e"]))]
+    return {"times": t, "as_units": t, "start_time": [t[0]], "end_time": [t[-1]], "tot_length": [sum(e_ - s_ for s_, e_ in zip(d["s"], d["e"]))], "ep.as_units": flat, "in_units": t,
+            "Ts.as_units": t, "TsdFrame.as_units": t, "Ts.times": t, "TsdFrame.times": t, "ep.start_time": inside[:1], "ep.end_time": inside[-1:]}
 
 
 def make_data(nap, rng):
@@ -122,7 +165,15 @@ def make_data(nap, rng):
     d["ref"] = nap.Ts(to_s(t[1::3]), time_support=d["wide"])
     reg_t = [origin + 5000 * k for k in range(0, 400)]
     d["reg"] = nap.Tsd(to_s(reg_t), np.sin(np.arange(400) / 7.0), time_support=d["wide"])
+    d["reg_own"] = nap.Tsd(to_s(reg_t), np.sin(np.arange(400) / 7.0))
+    d["reg_ep"] = nap.IntervalSet(to_s([reg_t[0]]), to_s([reg_t[-1]]))
+    d["regf"] = nap.TsdFrame(to_s(reg_t), np.stack([np.sin(np.arange(400) / 7.0), np.cos(np.arange(400) / 5.0)], 1), time_support=d["wide"])
+    d["frame"] = nap.TsdFrame(to_s(t), d["v2"], time_support=d["wide"])
+    d["ep_ts"] = nap.Ts(to_s(t), time_support=d["ep"])
     d["grp"] = nap.TsGroup({1: nap.Ts(to_s(t)), 4: nap.Ts(to_s(t[::2]))}, time_support=d["wide"])
+    d["cnt"] = d["grp"].count(0.05, d["wide"])
+    d["tc2"] = {1: np.array([[1.0, 3.0], [5.0, 2.0]]), 4: np.array([[2.0, 7.0], [0.5, 4.0]])}
+    d["xy"] = (np.array([0.5, 1.5]), np.array([0.25, 0.75]))
     d["b"] = rng.choice([100_000, 250_000, 333_333, 1_000_000])
     d["a0"], d["a1"] = sorted(origin + rng.randrange(-10**5, 41 * 10**5) for _ in range(2))
     if rng.random() < 0.4:
@@ -187,19 +238,112 @@ def float_layer(res, tier, seed):
     res.count("float_layer_values", n * 6)
 
 
+# every row of the GENERATED unit table (coq/Gen/Sites.v: the functions of /repo that take a time unit) -> the call forms / output points that sweep it.
+# A function that appears in the table without an entry here fails the check: "every unit-accepting entry point" is enforced, not assumed.
+ROWS = {
+    "_Base.__init__": ["Ts", "Tsd"], "_Base._get_slice": ["get_slice", "get_slice_open", "Ts.get_slice"], "_Base.count": ["count", "Ts.count"], "_Base.end_time": ["end_time", "ep.end_time"],
+    "_Base.find_support": ["find_support"], "_Base.get": ["get", "get_closest", "Ts.get", "TsdFrame.get"], "_Base.get_slice": ["get_slice", "get_slice_open", "Ts.get_slice"],
+    "_Base.start_time": ["start_time", "ep.start_time"], "_Base.times": ["times", "Ts.times", "TsdFrame.times"], "IntervalSet.__init__": ["IntervalSet", "IntervalSet_pairs", "IntervalSet_list"],
+    "IntervalSet.as_units": ["ep.as_units"], "IntervalSet.drop_long_intervals": ["drop_long"], "IntervalSet.drop_short_intervals": ["drop_short"],
+    "IntervalSet.merge_close_intervals": ["merge_close"], "IntervalSet.split": ["split"], "IntervalSet.tot_length": ["tot_length"], "TsIndex.__new__": ["Ts", "Ts_unsorted"],
+    "TsIndex.in_units": ["in_units"], "Ts.__init__": ["Ts", "Ts_unsorted", "Ts_list", "Ts_support"], "Ts.as_units": ["Ts.as_units"], "Ts.trial_count": ["trial_count"],
+    "Tsd.__init__": ["Tsd", "Tsd_list", "Tsd_support"], "Tsd.as_units": ["as_units"], "TsdFrame.__init__": ["TsdFrame", "TsdFrame_support"], "TsdFrame.as_units": ["TsdFrame.as_units"],
+    "TsdTensor.__init__": ["TsdTensor", "TsdTensor_support"], "_BaseTsd.__init__": ["Tsd", "TsdFrame", "TsdTensor"], "_BaseTsd.bin_average": ["bin_average", "TsdFrame.bin_average"],
+    "_BaseTsd.smooth": ["smooth", "smooth_w", "TsdFrame.smooth"], "TsGroup.__init__": ["TsGroup", "TsGroup_list", "TsGroup_nosupport"], "TsGroup.count": ["TsGroup.count"], "TsGroup.get": ["TsGroup.get"],
+    "TsGroup.trial_count": ["TsGroup.trial_count"], "compute_autocorrelogram": ["autocorr"], "compute_crosscorrelogram": ["crosscorr"], "compute_eventcorrelogram": ["eventcorr"],
+    "decode_1d": ["decode_1d", "decode_1d_frame", "decode_1d_dict", "decode_1d_feature"], "decode_2d": ["decode_2d", "decode_2d_frame", "decode_2d_dict"],
+    "compute_event_trigger_average": ["eta", "eta_scalar_window", "eta_ep"], "compute_perievent": ["perievent"], "compute_perievent_continuous": ["perievent_cont"],
+    "compute_mean_power_spectral_density": ["mean_psd", "mean_psd_ep"], "build_tensor": ["build_tensor", "build_tensor_tsd"],
+}
+
+
+def table_coverage(res, E, O):
+    try:
+        src = open(os.path.join(C.COQ, "Gen", "Sites.v")).read()
+        sec = src[src.index("Definition unit_table"):src.index("Definition config_table")]
+        funcs = re.findall(r'\("pynapple/[^":]+:([^"]+)", \(\[', sec)
+    except (OSError, ValueError):
+        res.disagreements.append({"op": "unit_table", "what": "harness: cannot read the generated unit table coq/Gen/Sites.v"})
+        return
+    res.count("unit_table_rows", len(funcs))
+    for fn in funcs:
+        names = ROWS.get(fn)
+        if not names:
+            res.disagreements.append({"op": fn, "what": "the unit-accepting function %s of the generated table is not swept by any call form of this harness" % fn})
+        elif [n for n in names if n not in E and n not in O]:
+            res.disagreements.append({"op": fn, "what": "harness: call forms listed for %s do not exist: %s" % (fn, [n for n in names if n not in E and n not in O])})
+
+
+def check_outputs(nap, res, O, d, seed, ds):
+    """outputs in units: the stored instant (k us, exactly known) x factor.  In seconds: the canonical double of k us, exactly.  In ms / us: within 0.3 ns of the
+    exact k/1e3, k (the bound proved for the float model, C09_output_is_stored_times_factor); the integer index of as_units('us'): exactly k.
+    tot_length is a float sum of <= 3 durations (each difference of two stored doubles carries <= 1.5e-11 s): 0.5 ns."""
+    out = []
+    exact = out_exact_us(d)
+    for name, f in O.items():
+        ks = np.asarray(exact[name], dtype=np.float64)
+        if not len(ks):
+            continue
+        tol_s = 0.5e-9 if name == "tot_length" else 0.3e-9
+        for u, fac in (("s", 1.0), ("ms", 1e3), ("us", 1e6)):
+            raw = np.asarray(f(d, u))
+            got = raw.astype(np.float64).ravel()
+            want = (ks * 1000) / 1e9 if u == "s" else ks / (1e6 / fac)
+            res.case((name, ds, u), nontrivial=True)
+            if u == "s" and name != "tot_length":
+                ok = got.shape == want.shape and bool(np.all(got == want))
+            elif u == "us" and name.endswith("as_units"):
+                ok = got.shape == want.shape and raw.dtype.kind == "i" and bool(np.all(got == want))
+            else:
+                ok = got.shape == want.shape and bool(np.all(np.abs(got - want) <= tol_s * fac))
+            if not ok:
+                out.append({"key": {"op": name, "part": "output_units", "unit": u}, "what": "value returned in %s is not the stored instant x %g" % (u, fac),
+                            "input": {"entry": name, "dataset_seed": [seed, ds]}, "impl": got[:5].tolist(), "expected": want[:5].tolist()})
+    return out
+
+
+STORED = ("Ts", "Ts_unsorted", "Ts_list", "Tsd", "Tsd_list", "TsdFrame", "TsdTensor", "TsGroup", "TsGroup_list", "TsGroup_nosupport", "IntervalSet", "IntervalSet_pairs", "IntervalSet_list")
+
+
+def check_stored(nap, res, E, d, seed, ds):
+    """stored = seconds rounded to 1 ns (on the lattice: the canonical double of k us), whatever the constructor and the unit; unsorted Ts input is stored sorted"""
+    out = []
+    cd = lambda ks: (np.asarray(sorted(ks), dtype=np.float64) * 1000) / 1e9
+    canon_ep = (np.stack([np.asarray(d["s"], dtype=np.float64), np.asarray(d["e"], dtype=np.float64)], 1) * 1000) / 1e9
+    for u, per in UNITS:
+        cv = (lambda per: (lambda us: np.asarray(us, dtype=np.float64) / per))(per)
+        for name in STORED:
+            o = E[name](cv, u, d)
+            res.case(("stored", name, ds, u), nontrivial=True)
+            if isinstance(o, nap.IntervalSet):
+                ok = np.array_equal(np.asarray(o.values), canon_ep)
+            elif isinstance(o, nap.TsGroup):
+                ok = np.array_equal(np.asarray(o[0].t), cd(d["t"])) and np.array_equal(np.asarray(o[3].t), cd(d["t"][::2]))
+            else:
+                ok = np.array_equal(np.asarray(o.t), cd(d["t"]))
+            if not ok:
+                out.append({"key": {"op": name, "part": "sorted_rounded", "unit": u}, "what": "%s(time_units=%s) does not store the sorted seconds rounded to 1 ns" % (name, u),
+                            "input": {"entry": name, "dataset_seed": [seed, ds], "t_us": d["t"]}})
+    return out
+
+
 def run(res, tier, seed):
     nap = _nap()
     warnings.simplefilter("ignore")
     from pynapple.core.time_index import TsIndex
-    res.rule = ("equivariance: every unit-accepting entry point (35) on seeded random microsecond-lattice inputs (origins 0, 1e3 s, -50 s, 9.9e4 s) called with its time "
-                "arguments in s, ms and us must give bit-identical results; output conversions = stored seconds x factor rounded to 9 decimals; under all 4 settings of the two "
-                "suppress_* flags; float layer: PrimFloat model vs implementation bit-exact on random/lattice doubles. non-trivial = an entry point evaluated on one data set "
-                "in all three units; distinct = (entry point, data set)")
+    res.rule = ("equivariance: every unit-accepting entry point (%d call forms covering every row of the generated unit table except the private _get_slice) on seeded random microsecond-lattice inputs (origins 0, 1e3 s, -50 s, 9.9e4 s) called with its time "
+                "arguments in s, ms and us must give bit-identical results (times, values, columns, supports, group rates and metadata); a data set on which the entry raises in all "
+                "three units is counted as not evaluated, and an entry never evaluated fails the check; 13 output points (times/as_units/start_time/end_time/tot_length/in_units of "
+                "Ts, Tsd, TsdFrame, IntervalSet) against the exact instant x factor: exact in s and for the integer us index, within 0.3 ns otherwise (0.5 ns tot_length); every "
+                "constructor in every unit stores the canonical double of each instant, sorted; under all 4 settings of the two suppress_* flags, with list/tuple inputs so "
+                "that the guarded warnings are reachable; float layer: PrimFloat model vs implementation bit-exact on random/lattice doubles. non-trivial = an entry point "
+                "evaluated on one data set with at least one unit not raising; distinct = (entry point, data set)" % len(entry_points(nap)))
     E = entry_points(nap)
     O = out_points(nap)
     rng = random.Random(seed * 101 + 9)
     nsets = 12 if tier == "quick" else 120
     flags = [(False, False), (True, False), (False, True), (True, True)]
+    evaluated, last_exc = set(), {}
     for ds in range(nsets):
         d = make_data(nap, rng)
         base = {}
@@ -215,12 +359,21 @@ def run(res, tier, seed):
                             outs.append(canon(f(cv, u, d)))
                         except Exception as ex:
                             outs.append(("EXC", type(ex).__name__))
-                    res.case((name, ds, fi), nontrivial=True)
-                    res.count("entry=" + name)
+                    all_raise = all(isinstance(o_, tuple) and len(o_) == 2 and o_[0] == "EXC" for o_ in outs)
+                    res.case((name, ds, fi), nontrivial=not all_raise)
+                    if all_raise:
+                        # nothing was compared: the entry point raised in every unit on this data set
+                        res.count("all_units_raise=" + name)
+                        last_exc[name] = outs[0][1]
+                    else:
+                        res.count("entry=" + name)
+                        evaluated.add(name)
                     if not (outs[0] == outs[1] == outs[2]):
                         bad = [UNITS[i][0] for i in (1, 2) if outs[i] != outs[0]]
-                        res.violations.append({"key": {"op": name, "part": "equivariance"}, "what": "result depends on the time unit used for the arguments",
-                                               "input": {"entry": name, "dataset_seed": [seed, ds], "units_differing_from_s": bad,
+                        raises_in = [UNITS[i][0] for i in range(3) if isinstance(outs[i], tuple) and len(outs[i]) == 2 and outs[i][0] == "EXC"]
+                        res.violations.append({"key": {"op": name, "part": "equivariance", "raises_in_some_unit_only": bool(raises_in)},
+                                               "what": "result depends on the time unit used for the arguments",
+                                               "input": {"entry": name, "dataset_seed": [seed, ds], "units_differing_from_s": bad, "units_raising": raises_in,
                                                          "data": {k: (v if isinstance(v, (int, list)) else None) for k, v in d.items() if isinstance(v, (int, list))}}})
                     if fi == 0:
                         base[name] = outs[0]
@@ -230,21 +383,8 @@ def run(res, tier, seed):
             finally:
                 nap.nap_config.suppress_conversion_warnings = False
                 nap.nap_config.suppress_time_index_sorting_warnings = False
-        # outputs in units: stored seconds x factor (rounded to 9 decimals as return_timestamps does)
-        for name, f in O.items():
-            sec = np.asarray(f(d, "s"), dtype=np.float64)
-            for u, fac in (("ms", 1e3), ("us", 1e6)):
-                got = np.asarray(f(d, u), dtype=np.float64)
-                want = np.around(sec * fac, 9)
-                res.case((name, ds, u), nontrivial=True)
-                # the conversion multiplies the UNROUNDED stored value and re-rounds to 9 decimals of the unit: compare up to that rounding
-                if got.shape != want.shape or not np.allclose(got, want, rtol=0, atol=1e-9 * fac):
-                    res.violations.append({"key": {"op": name, "part": "output_units"}, "what": "value returned in %s is not the stored seconds x %g" % (u, fac),
-                                           "input": {"entry": name, "dataset_seed": [seed, ds]}, "impl": got.ravel()[:5].tolist(), "expected": want.ravel()[:5].tolist()})
-        # stored = seconds rounded to 1 ns; unsorted Ts input is stored sorted
-        ts_u = nap.Ts(np.asarray(d["t"][::-1], dtype=np.float64) / 1e6)
-        if [C.to_ns(x) for x in ts_u.t] != [1000 * k for k in d["t"]] or not np.array_equal(ts_u.t, np.around(ts_u.t, 9)):
-            res.violations.append({"key": {"op": "Ts", "part": "sorted_rounded"}, "what": "Ts does not store sorted seconds rounded to 1 ns", "input": {"t_us": d["t"]}})
+        for v in check_outputs(nap, res, O, d, seed, ds) + check_stored(nap, res, E, d, seed, ds):
+            res.violations.append(v)
         if ds == 0:
             res.sample({"t_us": d["t"][:6], "ep_us": list(zip(d["s"], d["e"])), "bin_us": d["b"], "entry_points": sorted(E)})
     # lattice claim on the implementation: the three unit forms of a microsecond-lattice instant store the same double
@@ -262,6 +402,11 @@ def run(res, tier, seed):
                                    "input": {"k_us": k}, "impl": [float(x).hex(), float(y).hex(), float(z).hex()], "expected": float(w).hex()})
             break
     float_layer(res, tier, seed)
+    table_coverage(res, E, O)
+    for name in E:
+        if name not in evaluated:
+            res.disagreements.append({"op": name, "what": "harness: this entry point raised in all three units on every data set; its equivariance was never evaluated",
+                                      "exception": last_exc.get(name)})
 
 
 def search(res, seed):
@@ -294,6 +439,14 @@ def replay(payload):
                     outs.append(("EXC", type(ex).__name__))
             same = outs[0] == outs[1] == outs[2]
             print("entry", name, "same result in s/ms/us:", same)
-            return 0 if same else 1
+            bad = [x for x in check_stored(nap, C.Result(), E, d, seed, ds) if x["key"]["op"] == name] if name in STORED else []
+            for x in bad:
+                print(x["what"])
+            return 0 if same and not bad else 1
+        if name in O:
+            bad = [x for x in check_outputs(nap, C.Result(), O, d, seed, ds) if x["key"]["op"] == name]
+            for x in bad:
+                print(x["what"], "impl", x["impl"], "expected", x["expected"])
+            return 1 if bad else 0
     print("replay input", inp)
     return 1
